@@ -84,6 +84,58 @@ theorem src_lig {q : Q} {s : SrcAnchor} {k : List Char} {n : Nat}
     apply name_ne_empty_of_toList (c := c) (r := r ++ '_' :: ds); rw [e, e']; rfl
   exact ⟨_, namedAnchor_of_parse hne' hp rfl hi, rfl, rfl, rfl, rfl⟩
 
+theorem effName_ne_nil_name {s : String} {k : List Char} (h : effName s.toList = k) (hk : k ≠ []) : s ≠ "" := by
+  intro e; subst e
+  have : effName ("" : String).toList = [] := by decide
+  rw [this] at h; exact hk h.symm
+
+/-- a source anchor that answers key `k` under its pairing name (plain `k` / `k_N`, or contextual `*k…` / `*k_N…` with
+    object-lib data) is a base-side NamedAnchor of key k; it is contextual iff its name starts with '*' -/
+theorem src_side {q : Q} {s : SrcAnchor} {k : List Char} (c : Option Nat)
+    (hm : baseNameMatches k c (pairName s) = true) (hk : plainKey k = true) :
+    ∃ a, namedAnchor q s = .ok (some a) ∧ a.name = s.name ∧ a.isMark = false ∧ a.key = String.ofList k ∧
+      a.number = c.map (· + 1) ∧ a.ctx = (if (s.name.toList.head? == some '*') = true then s.lib else none) := by
+  have hka := ((plainKey_iff k).mp hk).1
+  obtain ⟨c0, r0, ek, hc0⟩ := hka
+  -- the effective name answers k, and a '*' name has lib data
+  have heff : baseNameMatches k c (effName s.name.toList) = true ∧
+      ((s.name.toList.head? == some '*') = true → s.lib.isSome = true) := by
+    unfold pairName at hm
+    cases hl : s.lib.isSome with
+    | true => rw [hl] at hm; exact ⟨by simpa using hm, fun _ => rfl⟩
+    | false =>
+      rw [hl] at hm
+      simp only [Bool.false_eq_true, if_false] at hm
+      have hhead : (s.name.toList.head? == some '*') = false := by
+        cases c with
+        | none =>
+          have : s.name.toList = k := by simpa [baseNameMatches] using hm
+          rw [this, ek]
+          simp only [head?_cons, beq_eq_false_iff_ne, ne_eq, Option.some.injEq]
+          exact alpha_ne_star c0 hc0
+        | some j =>
+          have hl' : isLigName k (j + 1) s.name.toList = true := by simpa [baseNameMatches] using hm
+          obtain ⟨ds, ⟨_, _, e⟩, _⟩ := sepDigits_of_isLigName hl'
+          rw [e, ek]
+          simp only [cons_append, head?_cons, beq_eq_false_iff_ne, ne_eq, Option.some.injEq]
+          exact alpha_ne_star c0 hc0
+      exact ⟨by rw [effName_plain hhead]; exact hm, fun h => by rw [hhead] at h; simp at h⟩
+  obtain ⟨hm', hlib⟩ := heff
+  have hi : keyIgnorable k = false := (headAlpha_head ⟨c0, r0, ek, hc0⟩).2.2.2
+  cases c with
+  | none =>
+    have he : effName s.name.toList = k := by simpa [baseNameMatches] using hm'
+    have hne : s.name ≠ "" := effName_ne_nil_name he (by rw [ek]; simp)
+    have hp := parse_base_eff he hk
+    exact ⟨_, namedAnchor_of_parse_gen hne hp hlib hi, rfl, rfl, rfl, rfl, rfl⟩
+  | some j =>
+    have hl' : isLigName k (j + 1) (effName s.name.toList) = true := by simpa [baseNameMatches] using hm'
+    obtain ⟨ds, ⟨hne', hd, e⟩, hnum⟩ := sepDigits_of_isLigName hl'
+    have hne : s.name ≠ "" := effName_ne_nil_name e (by simp)
+    have hp := parse_lig_eff e ⟨c0, r0, ek, hc0⟩ hne' hd (by omega)
+    rw [hnum] at hp
+    exact ⟨_, namedAnchor_of_parse_gen hne hp hlib hi, rfl, rfl, rfl, rfl, rfl⟩
+
 /-- under `anchorLists = ok`, a name `k_0…` cannot occur on an included glyph -/
 theorem lig_number_pos {i : Input} {al : AList} (cv : ALcov i al) {sg : SrcGlyph} (hsg : sg ∈ i.glyphs)
     (hinc : included i sg.name = true) {s : SrcAnchor} (hs : s ∈ sg.anchors) {k ds : List Char}
@@ -100,6 +152,21 @@ theorem lig_number_pos {i : Input} {al : AList} (cv : ALcov i al) {sg : SrcGlyph
     rcases hk with ⟨c, r, e', _⟩ | e'
     · apply name_ne_empty_of_toList (c := c) (r := r ++ '_' :: ds); rw [e, e']; rfl
     · apply name_ne_empty_of_toList (c := '_') (r := ds); rw [e, e']; rfl
+  simp [namedAnchor, hne', hp] at ho
+
+
+/-- the same for the effective name of a contextual anchor with lib data -/
+theorem lig_number_pos_eff {i : Input} {al : AList} (cv : ALcov i al) {sg : SrcGlyph} (hsg : sg ∈ i.glyphs)
+    (hinc : included i sg.name = true) {s : SrcAnchor} (hs : s ∈ sg.anchors) {k ds : List Char}
+    (hk : HeadAlpha k) (hsd : SepDigits (effName s.name.toList) k ds) : 1 ≤ digitsToNat ds := by
+  by_cases hlt : 1 ≤ digitsToNat ds
+  · exact hlt
+  exfalso
+  have h0 : digitsToNat ds = 0 := by omega
+  obtain ⟨hne, hd, e⟩ := hsd
+  have hp := parse_zero_error_eff e hk hne hd h0
+  obtain ⟨o, ho⟩ := cv.noerr sg hsg hinc s hs
+  have hne' : s.name ≠ "" := effName_ne_nil_name e (by simp)
   simp [namedAnchor, hne', hp] at ho
 
 end Ufo2ft.C06
